@@ -99,6 +99,9 @@ func vC15System(rc *runCtx) {
 	dst := filepath.Join(rc.dir, "dst")
 	os.MkdirAll(dst, 0755)
 	n := 3 + tp.Draw("entries", 40)
+	if tp.Bool("entries.tiny", 150) {
+		n = tp.Draw("entries.tinyn", 3) // a top directory with nothing, one entry or two below it
+	}
 	maxSize := 120000
 	if many {
 		n = 150 + tp.Draw("entries.many", 150)
